@@ -1782,7 +1782,17 @@ func undoAdd(totalRows uint8, positions, origToDestroy []uint64, numAdds uint16,
 func getPrevPos(totalRows uint8, cached, deleted, toDestroy []uint64, numAdds uint16, numLeaves uint64) ([]uint64, []int) {
 	var created []int
 	cached, created = undoAdd(totalRows, cached, toDestroy, numAdds, numLeaves)
+
+	// The leaves that were created in this block didn't exist yet when the
+	// deletions happened so undoing the deletions must not move them.
+	createdPos := make([]uint64, len(created))
+	for i, idx := range created {
+		createdPos[i] = cached[idx]
+	}
 	cached = undoDel(totalRows, cached, deleted, numLeaves-uint64(numAdds))
+	for i, idx := range created {
+		cached[idx] = createdPos[i]
+	}
 	return cached, created
 }
 
